@@ -111,6 +111,88 @@ fn cold_diff_job(pipe: Pipe) -> Job {
   })
 }
 
+/// BehaviorSubject over Subject vs over SubjectThreads, same operation sequence
+macro_rules! beh_run {
+  ($fname:ident, $subj:ty) => {
+    fn $fname(ops: &[usize]) -> Vec<Vec<Note>> {
+      use crate::world;
+      use rxrust::prelude::*;
+      let _w = world::World::new();
+      type B = BehaviorSubject<V, $subj>;
+      let mut h: B = B::new(V::I(9));
+      let mut probes: Vec<Probe> = vec![];
+      let mut subs = vec![];
+      for op in ops {
+        match op {
+          0 => {
+            let p = Probe::new();
+            probes.push(p.clone());
+            subs.push(Some(h.clone().actual_subscribe(p)));
+          }
+          1 => {
+            // a subscriber that peeks from inside its callback and records it
+            let hb = h.clone();
+            let log = Probe::new();
+            let l2 = log.clone();
+            let p = Probe::with_hook(move |_| l2.push_note(Note::N(hb.peek())));
+            probes.push(p.clone());
+            probes.push(log);
+            subs.push(Some(h.clone().actual_subscribe(p)));
+          }
+          2 => h.next(V::I(0)),
+          3 => h.next_by(|v| V::I(v.num() + 1)),
+          4 => h.clone().complete(),
+          5 => h.clone().error(E::E0),
+          _ => {
+            if let Some(u) = subs.iter_mut().find(|u| u.is_some()) {
+              u.take().unwrap().unsubscribe();
+            }
+          }
+        }
+      }
+      let mut out: Vec<Vec<Note>> = probes.iter().map(|p| p.notes()).collect();
+      out.push(vec![Note::N(h.peek())]);
+      out
+    }
+  };
+}
+beh_run!(beh_local, rxrust::prelude::Subject<'static, V, E>);
+beh_run!(beh_threads, rxrust::prelude::SubjectThreads<V, E>);
+
+fn behavior_diff_job(len: usize) -> Job {
+  Job::new(format!("BehaviorSubject local vs thread-safe L{len}"), move |ch, obs| {
+    let mut ops = vec![];
+    let mut n_subs = 0;
+    for _ in 0..len {
+      let k = ch.choose(7);
+      if k <= 1 {
+        n_subs += 1;
+        if n_subs > 3 {
+          continue;
+        }
+      }
+      ch.label(|| {
+        ["subscribe", "subscribe-peeking", "next(0)", "next_by(+1)", "complete", "error", "unsubscribe-first"][k]
+          .to_string()
+      });
+      ops.push(k);
+    }
+    let l = beh_local(&ops);
+    let t = beh_threads(&ops);
+    obs.checks += 1;
+    if l != t {
+      obs.fail(
+        "c18:diverge:behavior_subject",
+        format!("ops {ops:?}: local {l:?} but thread-safe form {t:?}"),
+      );
+    }
+    obs.delivered = l.iter().map(|x| x.len() as u64).sum();
+    obs.note_outcome(&l);
+  })
+  .panics_violate()
+  .sig("behavior_subject (one form does not return)")
+}
+
 pub fn plan(tier: Tier) -> Plan {
   let (depth, len, len2) = match tier {
     Tier::Quick => (2, 4, 4),
@@ -159,13 +241,16 @@ pub fn plan(tier: Tier) -> Plan {
       jobs.push(cold_diff_job(p));
     }
   }
+  for first in 0..7 {
+    jobs.push(behavior_diff_job(if tier == Tier::Quick { 6 } else { 7 }).root(vec![first]));
+  }
   Plan {
     jobs,
     finish: Finish {
       prop: "C18".into(),
       tier: tier_name(tier),
       engine: "E1 opseq".into(),
-      rule: "every pipeline of the C01 generator is instantiated twice from the same AST — all-local (Subject, Subscriber, BoxOp, merge, ...) and all-thread-safe (SubjectThreads, SubscriberThreads, BoxOpThreads, merge_threads, ...) — and both are driven single-threaded through every action history up to the length bound over {next(0), next(1), complete, error per input, tick}; the probe traces (and those of a second subscriber for share) must be identical after every action (pure differential oracle); non-trivial = something was delivered".into(),
+      rule: "every pipeline of the C01 generator is instantiated twice from the same AST — all-local (Subject, Subscriber, BoxOp, merge, ...) and all-thread-safe (SubjectThreads, SubscriberThreads, BoxOpThreads, merge_threads, ...) — and both are driven single-threaded through every action history up to the length bound over {next(0), next(1), complete, error per input, tick}; the probe traces (and those of a second subscriber for share) must be identical after every action (pure differential oracle); likewise BehaviorSubject over Subject vs over SubjectThreads on every operation sequence incl. a subscriber that peeks from inside its callback (a form that does not return is a divergence); non-trivial = something was delivered".into(),
       bounds: json!({"chain_depth": depth, "history_len_chains": len, "history_len_two_input": len2, "pipelines": n_pipes}),
       assumptions: vec!["FIFO-prompt executor in both instantiations".into()],
     },
